@@ -152,4 +152,152 @@ theorem setKey_eq_poke_update (lt : κ → κ → Bool) (s : Heap κ) (hd : Nat)
       simpa [Array.getElem_set, hne] using this
     simp [hf2]
 
+/-! ### key abstraction (ranks)
+
+If `f` carries the order (`lt' (f x) (f y) = lt x y`) then sifting, removal, the pop loop and every audit commute with
+`mapKey f`: judging the rank vector of a dump is judging the dump. -/
+section Map
+variable {κ' : Type}
+
+@[simp] theorem size_mapKey (f : κ → κ') (a : Array (Elem κ)) : (mapKey f a).size = a.size := by simp [mapKey]
+@[simp] theorem getElem_mapKey (f : κ → κ') (a : Array (Elem κ)) (i : Nat) (h : i < (mapKey f a).size) :
+    (mapKey f a)[i] = ⟨(a[i]'(by simpa using h)).h, f (a[i]'(by simpa using h)).key⟩ := by simp [mapKey]
+
+theorem mapKey_swap (f : κ → κ') (a : Array (Elem κ)) (i j : Nat) (hi : i < a.size) (hj : j < a.size) :
+    (mapKey f a).swap i j (by simpa using hi) (by simpa using hj) = mapKey f (a.swap i j hi hj) := by
+  apply Array.ext
+  · simp
+  · intro k h1 h2
+    simp only [Array.getElem_swap, getElem_mapKey]
+    split
+    · rfl
+    · split <;> rfl
+
+theorem siftUp_map (lt : κ → κ → Bool) (lt' : κ' → κ' → Bool) (f : κ → κ') (hf : ∀ x y, lt' (f x) (f y) = lt x y)
+    (a : Array (Elem κ)) (i : Nat) : siftUp lt' (mapKey f a) i = mapKey f (siftUp lt a i) := by
+  fun_induction siftUp lt a i with
+  | case1 a i hi hlt ih =>
+    rw [siftUp]
+    have hi' : 0 < i ∧ i < (mapKey f a).size := by simpa using hi
+    simp only [hi', and_self, ↓reduceDIte, getElem_mapKey, hf, hlt, ↓reduceIte]
+    rw [mapKey_swap f a i ((i-1)/2) hi.2 (by omega)]
+    exact ih
+  | case2 a i hi hlt =>
+    rw [siftUp]
+    have hi' : 0 < i ∧ i < (mapKey f a).size := by simpa using hi
+    simp [hi', hf, hlt]
+  | case3 a i hi =>
+    rw [siftUp]
+    have hi' : ¬ (0 < i ∧ i < (mapKey f a).size) := by simpa using hi
+    rw [dif_neg hi']
+
+theorem siftDown_map (lt : κ → κ → Bool) (lt' : κ' → κ' → Bool) (f : κ → κ') (hf : ∀ x y, lt' (f x) (f y) = lt x y)
+    (a : Array (Elem κ)) (i : Nat) : siftDown lt' (mapKey f a) i = mapKey f (siftDown lt a i) := by
+  fun_induction siftDown lt a i with
+  | case1 a i h2 hlr hlt ih =>
+    rw [siftDown]
+    have h2' : 2 * i + 2 < (mapKey f a).size := by simpa using h2
+    simp only [h2', ↓reduceDIte, getElem_mapKey, hf, hlr, hlt, ↓reduceIte]
+    rw [mapKey_swap f a (2 * i + 1) i (by omega) (by omega)]
+    exact ih
+  | case2 a i h2 hlr hlt =>
+    rw [siftDown]
+    have h2' : 2 * i + 2 < (mapKey f a).size := by simpa using h2
+    simp only [h2', ↓reduceDIte, getElem_mapKey, hf, hlr, hlt, ↓reduceIte]
+    simp
+  | case3 a i h2 hlr hlt ih =>
+    rw [siftDown]
+    have h2' : 2 * i + 2 < (mapKey f a).size := by simpa using h2
+    simp only [h2', ↓reduceDIte, getElem_mapKey, hf, hlr, hlt, ↓reduceIte]
+    rw [mapKey_swap f a (2 * i + 2) i (by omega) (by omega)]
+    exact ih
+  | case4 a i h2 hlr hlt =>
+    rw [siftDown]
+    have h2' : 2 * i + 2 < (mapKey f a).size := by simpa using h2
+    simp only [h2', ↓reduceDIte, getElem_mapKey, hf, hlr, hlt, ↓reduceIte]
+    simp
+  | case5 a i h2 h3 hlt =>
+    rw [siftDown]
+    have h2' : ¬ 2 * i + 2 < (mapKey f a).size := by simpa using h2
+    have h3' : 2 * i + 1 < (mapKey f a).size := by simpa using h3
+    simp only [h2', h3', ↓reduceDIte, getElem_mapKey, hf, hlt, ↓reduceIte]
+    exact mapKey_swap f a (2 * i + 1) i (by omega) (by omega)
+  | case6 a i h2 h3 hlt =>
+    rw [siftDown]
+    have h2' : ¬ 2 * i + 2 < (mapKey f a).size := by simpa using h2
+    have h3' : 2 * i + 1 < (mapKey f a).size := by simpa using h3
+    simp only [h2', h3', ↓reduceDIte, getElem_mapKey, hf, hlt, ↓reduceIte]
+    simp
+  | case7 a i h2 h3 =>
+    rw [siftDown]
+    have h2' : ¬ 2 * i + 2 < (mapKey f a).size := by simpa using h2
+    have h3' : ¬ 2 * i + 1 < (mapKey f a).size := by simpa using h3
+    rw [dif_neg h2', dif_neg h3']
+
+theorem mapKey_pop (f : κ → κ') (a : Array (Elem κ)) : (mapKey f a).pop = mapKey f a.pop := by
+  simp [mapKey]
+
+theorem removePos_map (lt : κ → κ → Bool) (lt' : κ' → κ' → Bool) (f : κ → κ') (hf : ∀ x y, lt' (f x) (f y) = lt x y)
+    (a : Array (Elem κ)) (p : Nat) : removePos lt' (mapKey f a) p = mapKey f (removePos lt a p) := by
+  unfold removePos
+  by_cases h : p + 1 < a.size
+  · have h' : p + 1 < (mapKey f a).size := by simpa using h
+    simp only [h, h', ↓reduceDIte]
+    have e : (mapKey f a).size - 1 = a.size - 1 := by simp
+    have := mapKey_swap f a p (a.size - 1) (by omega) (by omega)
+    simp only [e]
+    rw [this, mapKey_pop, siftUp_map lt lt' f hf, siftDown_map lt lt' f hf]
+  · have h' : ¬ p + 1 < (mapKey f a).size := by simpa using h
+    simp only [h, h', ↓reduceDIte]
+    exact mapKey_pop f a
+
+theorem drain_map (lt : κ → κ → Bool) (lt' : κ' → κ' → Bool) (f : κ → κ') (hf : ∀ x y, lt' (f x) (f y) = lt x y)
+    (n : Nat) (a : Array (Elem κ)) :
+    drain lt' n (mapKey f a) = (drain lt n a).map (fun e => ⟨e.h, f e.key⟩) := by
+  induction n generalizing a with
+  | zero => simp [drain]
+  | succ n ih =>
+    unfold drain
+    by_cases h0 : 0 < a.size
+    · have h0' : 0 < (mapKey f a).size := by simpa using h0
+      simp only [h0, h0', ↓reduceDIte, List.map_cons, getElem_mapKey]
+      rw [removePos_map lt lt' f hf, ih]
+    · have h0' : ¬ 0 < (mapKey f a).size := by simpa using h0
+      simp [h0, h0']
+
+theorem edgeOk_map (lt : κ → κ → Bool) (lt' : κ' → κ' → Bool) (f : κ → κ') (hf : ∀ x y, lt' (f x) (f y) = lt x y)
+    (a : Array (Elem κ)) (c : Nat) : edgeOk lt' (mapKey f a) c = edgeOk lt a c := by
+  unfold edgeOk
+  by_cases h : 0 < c ∧ c < a.size
+  · have h' : 0 < c ∧ c < (mapKey f a).size := by simpa using h
+    simp [h, hf]
+  · have h' : ¬ (0 < c ∧ c < (mapKey f a).size) := by simpa using h
+    rw [dif_neg h, dif_neg h']
+
+theorem heapOrdered_map (lt : κ → κ → Bool) (lt' : κ' → κ' → Bool) (f : κ → κ') (hf : ∀ x y, lt' (f x) (f y) = lt x y)
+    (a : Array (Elem κ)) : heapOrdered lt' (mapKey f a) = heapOrdered lt a := by
+  unfold heapOrdered
+  simp only [size_mapKey]
+  congr 1
+  funext c
+  exact edgeOk_map lt lt' f hf a c
+
+theorem topIsMin_map (lt : κ → κ → Bool) (lt' : κ' → κ' → Bool) (f : κ → κ') (hf : ∀ x y, lt' (f x) (f y) = lt x y)
+    (a : Array (Elem κ)) : topIsMin lt' (mapKey f a) = topIsMin lt a := by
+  unfold topIsMin
+  by_cases h0 : 0 < a.size
+  · have h0' : 0 < (mapKey f a).size := by simpa using h0
+    simp only [h0, h0', ↓reduceDIte, getElem_mapKey]
+    simp [mapKey, List.all_map, hf, Function.comp_def]
+  · have h0' : ¬ 0 < (mapKey f a).size := by simpa using h0
+    rw [dif_neg h0, dif_neg h0']
+
+theorem popAll_map (lt : κ → κ → Bool) (lt' : κ' → κ' → Bool) (f : κ → κ') (hf : ∀ x y, lt' (f x) (f y) = lt x y)
+    (a : Array (Elem κ)) : popAll lt' (mapKey f a) = (popAll lt a).map (fun e => ⟨e.h, f e.key⟩) := by
+  unfold popAll
+  rw [size_mapKey]
+  exact drain_map lt lt' f hf a.size a
+
+end Map
+
 end OmplModel.Heap
